@@ -564,7 +564,7 @@ M("C13", "scale-in-place-buffer", _MPF, "        new_mp[self.qnidx] = new_mp[sel
 
 _FIX_EXPECT = {1: ("C03", ["qn-align"]), 2: ("C03", ["qn-charge"]), 3: ("C10", ["evolve"]), 4: ("C13", ["effect-bound", "TTNS.evolve"]), 5: ("C13", ["compressed_sum"]),
                6: ("C15", ["array-truth"]), 7: ("C16", ["sho-product"]), 8: ("C16", ["copy-forward"]), 9: ("C14", ["crash-points"]), 10: ("C09", ["krylov-hermitian"]),
-               11: ("C08", ["heff-network"]), 12: ("C09", ["adaptive-reject"]), 13: ("C17", ["jw-vocabulary"]), 14: ("C10", ["imag-reentry"]), 15: ("C10", ["thermal-hamiltonian"]), 16: ("C09", ["entry-gauge"]), 17: ("C07", ["rdm-network"])}
+               11: ("C08", ["heff-network"]), 12: ("C09", ["adaptive-reject"]), 13: ("C17", ["jw-vocabulary"]), 14: ("C10", ["imag-reentry"]), 15: ("C10", ["thermal-hamiltonian"]), 16: ("C09", ["entry-gauge"]), 17: ("C07", ["rdm-network"]), 18: ("C17", ["out-ops-shape"])}
 for _f in sorted(_os.listdir(_os.path.join(_V, "renostat", "selftest_patches"))):
     if _f.startswith("fix-"):
         _n = int(_f.split("-")[1])
@@ -590,6 +590,9 @@ _SEED_RULE = {
     "C04-svd-qn-skips-tiny-blocks": "svd-blocks", "C05-compress-ret-s-normalises-in-place": "bond-index", "C06-apply-moves-centre-to-last-site": "qn-align",
     "C08-tree-arpack-smallest-magnitude": "eigen-selection", "C10-cmf-midpoint-full-imaginary-step": "midpoint-reentry", "C14-periodic-dump-only-on-info-steps": "periodic-dump",
     "C16-ti1d-drops-coinciding-images": "model-terms", "C17-int-to-h-drops-spin-delta": "spin-orbital-integrals",
+    "C01-dedup-threshold-before-merge": "split-order", "C02-composer-factor-per-basis-set": "layout", "C03-canonicalise-always-switches-direction": "sweep-centre",
+    "C07-edof-rdm-transposed": "observable-cache", "C09-taylor-adaptive-scales-in-place": "adaptive-reject", "C11-moveaxis-sibling-label-order": "decomposition-axes",
+    "C12-get-qnmat-parent-label-order": "decomposition-axes", "C13-add-leaves-other-prefactor": "effect-bound",
 }
 _sd = _os.path.join(_V, "seeded")
 for _name in sorted(_os.listdir(_sd)):
